@@ -326,7 +326,17 @@ class Ctx:
             state = {"target": None, "last": None}
 
             def body(args):
-                res = self.fresh(check(*args))
+                try:
+                    res = check(*args)
+                except Exception as e:
+                    where = library_frame(e)
+                    if where is None:
+                        raise
+                    # the library raised on an input this check feeds it on purpose (and that it accepts on the unchanged tree): reported
+                    # as a discrepancy of its own kind instead of stopping the whole check as a harness error
+                    res = [(f"{self.pid}|library-exception|{name}|{type(e).__name__}:{str(e)[:40]}",
+                            f"the library raised {type(e).__name__}: {e} (in {where}) on a generated case of pass '{name}'", {"generated": repr(args)[:2000]})]
+                res = self.fresh(res)
                 if not res:
                     return
                 if state["target"] is None:
@@ -405,11 +415,35 @@ def load_known(pid: str):
 _SHARD_FN = None
 
 
+def library_frame(e: BaseException):
+    """'file:line function' of the innermost frame if the exception was raised inside the library under test, else None."""
+    tb = e.__traceback__
+    last = None
+    while tb is not None:
+        last = tb
+        tb = tb.tb_next
+    if last is None:
+        return None
+    fn = last.tb_frame.f_code.co_filename
+    lib = os.path.join(os.path.realpath(REPO), "nmea2000") + os.sep
+    if os.path.realpath(fn).startswith(lib):
+        return f"{os.path.basename(fn)}:{last.tb_lineno} {last.tb_frame.f_code.co_name}"
+    return None
+
+
 def _shard_entry(args):
     pid, shard, item = args
     ctx = Ctx(pid, shard)
     try:
         _SHARD_FN(ctx, item)
+    except Exception as e:
+        where = library_frame(e)
+        if where is None:
+            return {"error": traceback.format_exc(), "shard": shard}
+        # (see Ctx.hyp) a library call this pass makes on purpose raised: a discrepancy, and the rest of this shard's work is lost
+        ctx.report(f"{pid}|library-exception|{getattr(_SHARD_FN, '__name__', 'pass')}|{type(e).__name__}:{str(e)[:40]}",
+                   f"the library raised {type(e).__name__}: {e} (in {where}) during pass {getattr(_SHARD_FN, '__name__', '?')}; item {repr(item)[:200]}",
+                   {"generated": repr(item)[:2000]})
     except BaseException:
         return {"error": traceback.format_exc(), "shard": shard}
     return ctx.export()
